@@ -44,6 +44,8 @@ pub struct Case {
     /// the faulty bytes, written after the valid preamble of the stream
     pub bytes: Vec<u8>,
     pub fin: bool,
+    /// request stream only: a valid message head precedes the faulty bytes (else they come first)
+    pub with_head: bool,
     pub mode: Mode,
     /// close codes the reference accepts (first = the one the property names)
     pub accept: Vec<u64>,
@@ -155,7 +157,7 @@ pub fn execute(case: &Case, seed: u64) -> Outcome {
                         }
                     }
                     // a valid message head first, so that the faulty frame is met in the body phase
-                    let head = headers_frame(if peer == CLIENT { REQ_SECTION } else { RESP_SECTION });
+                    let head = if case.with_head { headers_frame(if peer == CLIENT { REQ_SECTION } else { RESP_SECTION }) } else { Vec::new() };
                     let mut all = head.clone();
                     all.extend_from_slice(&case.bytes);
                     net.raw_write(peer, 0, &all);
@@ -178,7 +180,7 @@ pub fn execute(case: &Case, seed: u64) -> Outcome {
 pub fn judge(case: &Case, o: &Outcome) -> Vec<(String, String)> {
     let role = if case.server { "server" } else { "client" };
     let place = if case.place == Where::Request { "request" } else { "control" };
-    let ctx = format!("{role} {place} stream, bytes {} {} [{}], {:?}", hex(&case.bytes), if case.fin { "+FIN" } else { "(open)" }, case.why, case.mode);
+    let ctx = format!("{role} {place} stream{}, bytes {} {} [{}], {:?}", if case.place == Where::Request && !case.with_head { " (first frame)" } else { "" }, hex(&case.bytes), if case.fin { "+FIN" } else { "(open)" }, case.why, case.mode);
     let mut out = Vec::new();
     for p in &o.panics {
         out.push((format!("C02:s2:{role}:{place}:panic@{}", explore::panics::short_loc(p)), format!("{ctx}: {p}")));
@@ -193,11 +195,11 @@ pub fn judge(case: &Case, o: &Outcome) -> Vec<(String, String)> {
     let name = |c: u64| code_name(c);
     match o.close_codes.as_slice() {
         [] => out.push((
-            format!("C02:s2:{role}:{place}:{}:not-reported", case.why),
+            format!("C02:s2:{role}:{place}:{}{}:not-reported", case.why, if case.with_head { "" } else { ":first-frame" }),
             format!("{ctx}: the connection was never closed (expected {}); driver {:?}, request {:?}", name(case.accept[0]), o.driver, o.msg.as_ref().map(|m| (m.head.clone(), m.body_end.clone(), m.trailers.clone(), m.stage.clone()))),
         )),
         [c] if case.accept.contains(c) => {}
-        [c] => out.push((format!("C02:s2:{role}:{place}:{}:code={}", case.why, name(*c)), format!("{ctx}: closed with {} ({c:#x}), expected {}", name(*c), case.accept.iter().map(|c| name(*c)).collect::<Vec<_>>().join(" or ")))),
+        [c] => out.push((format!("C02:s2:{role}:{place}:{}{}:code={}", case.why, if case.with_head { "" } else { ":first-frame" }, name(*c)), format!("{ctx}: closed with {} ({c:#x}), expected {}", name(*c), case.accept.iter().map(|c| name(*c)).collect::<Vec<_>>().join(" or ")))),
         many => {
             if !many.iter().all(|c| *c == many[0]) || !case.accept.contains(&many[0]) {
                 out.push((format!("C02:s2:{role}:{place}:{}:close-codes-differ", case.why), format!("{ctx}: close() called with {many:x?}")));
@@ -229,7 +231,11 @@ pub fn cases(tier: Tier) -> Vec<Case> {
     let modes: &[Mode] = &[Mode::Whole, Mode::PerByte, Mode::Explore];
     let mut push = |server: bool, place: Where, bytes: Vec<u8>, fin: bool, accept: Vec<u64>, why: &'static str| {
         for &mode in modes {
-            out.push(Case { server, place, bytes: bytes.clone(), fin, mode, accept: accept.clone(), why });
+            out.push(Case { server, place, bytes: bytes.clone(), fin, with_head: true, mode, accept: accept.clone(), why });
+            // the same faulty bytes as the very first thing on the request stream
+            if place == Where::Request && why.ends_with("cut-by-fin") && !why.starts_with("data") && !why.starts_with("second") && !why.starts_with("padded") {
+                out.push(Case { server, place, bytes: bytes.clone(), fin, with_head: false, mode, accept: accept.clone(), why });
+            }
         }
     };
     for server in [true, false] {
@@ -285,7 +291,7 @@ pub fn cases(tier: Tier) -> Vec<Case> {
 }
 
 fn case_json(c: &Case, choices: &[u32], seed: u64) -> Value {
-    json!({"seam":2,"server":c.server,"place": if c.place == Where::Request {"request"} else {"control"},"bytes":hex(&c.bytes),"fin":c.fin,
+    json!({"seam":2,"server":c.server,"place": if c.place == Where::Request {"request"} else {"control"},"bytes":hex(&c.bytes),"fin":c.fin,"with_head":c.with_head,
         "mode": match c.mode { Mode::Whole => "whole", Mode::PerByte => "per-byte", Mode::Explore => "explore" },
         "accept": c.accept, "why": c.why, "choices": choices, "seed": seed})
 }
@@ -297,6 +303,7 @@ fn case_from_json(r: &Value) -> Case {
         place: if r["place"] == "request" { Where::Request } else { Where::Control },
         bytes: explore::unhex(r["bytes"].as_str().unwrap()),
         fin: r["fin"].as_bool().unwrap(),
+        with_head: r["with_head"].as_bool().unwrap_or(true),
         mode: match r["mode"].as_str().unwrap() {
             "whole" => Mode::Whole,
             "per-byte" => Mode::PerByte,
